@@ -30,25 +30,60 @@ TABLE = {
 }
 
 
-def check_bound(ob: Ob, fn, f, me, line: int, amb_value=None) -> None:
+def check_bound(ob: Ob, fn, f, me, line: int, amb_value=None, flags=None) -> None:
     amb, plain = TABLE[fn.name]
+    flags = flags or {}
+    own = [x for x in ("strict", "passthrough") if fn.param(x) is not None]
     if op(f) != "bound":
-        ob.violate(fn.qualname, where(fn, line), f"{fn.name} maps `{show(f)[:60]}` over the column, not the scalar method with strict/passthrough bound", detail="callable-shape")
-        return
-    target, kws = f[1], dict(f[3])
-    if f[2]:
-        ob.violate(fn.qualname, where(fn, line), f"{fn.name} binds positional arguments {show(f[2])[:40]}", detail="positional")
-    for flag in ("strict", "passthrough"):
-        if fn.param(flag) is None:
+        # the bare scalar method: right only on a path on which every own flag is known to be off (a helper that
+        # "binds only non-default flags")
+        if op(f) == "attr" and f[1] == me and all(flags.get(x) is False for x in own):
+            target, kws = f, {}
+        else:
+            ob.violate(fn.qualname, where(fn, line), f"{fn.name} maps `{show(f)[:60]}` over the column, not the scalar method with strict/passthrough bound", detail="callable-shape")
+            return
+    else:
+        target, kws = f[1], dict(f[3])
+        if f[2]:
+            ob.violate(fn.qualname, where(fn, line), f"{fn.name} binds positional arguments {show(f[2])[:40]}", detail="positional")
+    # the mode the cells are converted in must be the mode of the scalar call with the wrapper's own flags, in every
+    # flag world this path is taken in (strict dominates passthrough in the scalar methods: C08)
+    import itertools as _it
+
+    def mode(s_, p_):
+        return "strict" if s_ else "passthrough" if p_ else "default"
+
+    bad_flags = set()
+    for vals in _it.product((True, False), repeat=len(own)):
+        world = dict(zip(own, vals))
+        if any(flags.get(k) is not None and flags[k] != v_ for k, v_ in world.items()):
             continue
+        eff = {}
+        for flag in ("strict", "passthrough"):
+            v = kws.get(flag)
+            if v is None:
+                eff[flag] = False
+            elif v == ("param", flag):
+                eff[flag] = world.get(flag, False)
+            elif is_const(v) and isinstance(v[1], bool):
+                eff[flag] = v[1]
+            else:
+                eff[flag] = None
+        if None in eff.values() or mode(eff["strict"], eff["passthrough"]) != mode(world.get("strict", False), world.get("passthrough", False)):
+            for flag in own:
+                v = kws.get(flag)
+                if v != ("param", flag) and not (eff.get(flag) is not None and eff[flag] == world.get(flag, False)):
+                    bad_flags.add(flag)
+            if not bad_flags:
+                bad_flags.update(own)
+    for flag in sorted(bad_flags, key=lambda x: ("strict", "passthrough").index(x)):
         v = kws.get(flag)
-        if v != ("param", flag):
-            ob.violate(
-                fn.qualname,
-                where(fn, line),
-                f"{fn.name} does not bind `{flag}` of the scalar method to its own `{flag}` parameter ({flag}={show(v) if v else 'not passed'}): cells are converted in a different mode than the scalar call",
-                detail=f"flag:{flag}",
-            )
+        ob.violate(
+            fn.qualname,
+            where(fn, line),
+            f"{fn.name} does not bind `{flag}` of the scalar method to its own `{flag}` parameter ({flag}={show(v) if v else 'not passed'}): cells are converted in a different mode than the scalar call",
+            detail=f"flag:{flag}",
+        )
     extra = set(kws) - {"strict", "passthrough"}
     if extra:
         ob.violate(fn.qualname, where(fn, line), f"{fn.name} binds extra keyword(s) {sorted(extra)}", detail="extra-kw")
@@ -95,7 +130,7 @@ def d1(cx: Cx, ob: Ob) -> None:
                     if op(v) == "call" and callee_name(v) in ("map", "apply") and v[2]:
                         found = True
                         ob.site(f"{where(fn, ev.line)} {fn.qualname}", show(v[2][0])[:90])
-                        check_bound(ob, fn, v[2][0], me, ev.line, flag_values(ctx, ("ambiguous",)).get("ambiguous"))
+                        check_bound(ob, fn, v[2][0], me, ev.line, flag_values(ctx, ("ambiguous",)).get("ambiguous"), flag_values(ctx, ("strict", "passthrough")))
                     else:
                         ob.undecide(f"{name}: column is computed by `{show(v)[:60]}`")
                         found = True
@@ -104,7 +139,7 @@ def d1(cx: Cx, ob: Ob) -> None:
                 found = True
                 f = c[2][0] if c[2] else dict(c[3]).get("func")
                 ob.site(f"{where(fn, ev.line)} {fn.qualname}", show(f)[:90])
-                check_bound(ob, fn, f, me, ev.line, flag_values(ctx, ("ambiguous",)).get("ambiguous"))
+                check_bound(ob, fn, f, me, ev.line, flag_values(ctx, ("ambiguous",)).get("ambiguous"), flag_values(ctx, ("strict", "passthrough")))
                 kw = dict(c[3])
                 for p in ("path", "column", "sep", "header"):
                     if kw.get(p) != ("param", p):
